@@ -103,37 +103,37 @@ CLAIMED.update({
 })
 
 CLAIMED.update({
-    "C10": dict(cat="bounded_symbolic", design="DESIGN.md §4 C10",
+    "C10": dict(cat="other", design="DESIGN.md §4 C10",
                 text="Unit-symbolic (M1) on generated IRDL definitions: for each construct (operands, results, regions, successors) every single/optional/variadic definition sequence up to length 3 (thorough 4) x every admissible option (none, SameVariadic*Size, AttrSized*Segments as property/attribute) is turned into a real op class; an instance with n elements (n forked 0..5, thorough 0..8) carries SYMBOLIC i32 segment sizes and the real OpDef.verify decides acceptance; z3 shows acceptance <=> the property's segment rules (non-negative, per-kind, sum = n) for all sizes, and that accepted ops' accessors return exactly the reference slices. Constraint families give operand/result/property types SYMBOLIC integer widths under VarConstraint/RangeVarConstraint/Eq/AnyOf/Base constraints and decide acceptance <=> reference formula; constructor families build through the generated build() and check verify + accessors; property/attribute presence family.",
                 note="Definition shapes and list lengths are enumerated (they are Python class structure); the solver dimension is segment sizes and type widths. The operations of the registered dialects are not covered (no symbolic dimension). Sizes are bounded to [-2,7] (thorough [-3,10])."),
 })
 
 CLAIMED.update({
-    "C09": dict(cat="bounded_symbolic", design="DESIGN.md §4 C09",
+    "C09": dict(cat="other", design="DESIGN.md §4 C09",
                 text="Unit-symbolic (M1): constraint trees from a grammar (Any/Base/Eq/AttrSet leaves, ParamAttrConstraint over a generic pair attribute and IntegerType, VarConstraint shared across positions and depths, AnyOf.get and `|` unions of 2-3 alternatives incl. every pair of pair-parameter alternatives over a 5-letter constraint alphabet, AllOf and `&`) are built by the real constructors and verified on a SYMBOLIC attribute (shape forked over 9 shapes up to depth 2; integer payloads and type widths are solver variables). z3 decides acceptance <=> a declarative structural reference (union = some alternative, intersection = all, one consistent variable assignment) for all payloads; on accepted paths can_infer => infer()'s result verifies. Hints (classes, unions, generic attribute classes, unions of generics) via irdl_to_attr_constraint are compared with isa and with the hint's structure on the same symbolic attributes.",
                 note="Tree shapes and attribute shapes are enumerated; payloads are symbolic. Where verification hashes the attribute (AttrSetConstraint membership) the engine concretises by forking, so payload ranges are narrowed there ([-1,3], widths [7,17]). Unions the constructor refuses (PyRDLError) are skipped, as the property allows."),
 })
 
 CLAIMED.update({
-    "C18": dict(cat="bounded_symbolic", design="DESIGN.md §4 C18",
+    "C18": dict(cat="other", design="DESIGN.md §4 C18",
                 text="Unit-symbolic (M1) on text: option-carrying pass objects (generated dataclasses covering str/int/bool/float/optional/default/tuple/union option types and every registered pass with options) get SYMBOLIC option values - bounded symbolic text whose cells range over all of Unicode (case-split into 9 character classes), integers as solver variables rendered to symbolic decimal digits, tuples, optionals - and are printed by the real spec()/ArgSpec.__str__; the symbolic text is lexed by the real PipelineLexer (regexes executed by a backtracking matcher that walks CPython's parse tree of each pattern in sre's priority order), parsed by parse_pipeline, string literals decoded by the real StringLiteral.bytes_contents over symbolic UTF-8, and rebuilt by from_spec; z3 decides equality with the original for all values. Parsing: templates with symbolic holes must end in passes or ArgSpecParseError/ValueError.",
                 note="Floats cannot be rendered symbolically (repr is C code): enumerated boundary values only. Bounds: 3 cells over Unicode (thorough 5), 6 cells over a word alphabet (thorough 8), 7-digit ints. Two known findings (Optional[tuple] () vs None; non-finite floats) are format limitations, recorded; three defects were repaired (fix: commits)."),
 })
 
 CLAIMED.update({
-    "C06": dict(cat="bounded_symbolic", design="DESIGN.md §4 C06",
+    "C06": dict(cat="other", design="DESIGN.md §4 C06",
                 text="Unit-symbolic (M1) through the real Printer, MLIRLexer and Parser: builtin attributes/types are built with SYMBOLIC payloads (StringAttr/file names/symbol names as bounded symbolic text over all of Unicode, BytesAttr as symbolic bytes, IntegerAttr/IntAttr values over the full range of each type incl. i128, DenseArrayBase and DenseIntOrFPElementsAttr from symbolic raw element bytes - i.e. every element value - incl. splats, vectors and 2-d shapes, tensor/memref/vector dims, IntegerType widths, function and tuple types), printed, and the symbolic text is lexed and parsed back in a fresh context; z3 decides for all payload values that the whole text is consumed and the parsed attribute has the same class and identical payloads (dense data byte for byte). Float payloads: enumerated boundary values per float type (both zeros in one process, denormals, extremes, NaN payloads, infinities) in scalar, array and dense form with bit-pattern comparison.",
                 note="repr/format of floats is C code, so floats are not symbolic. Dictionary keys are enumerated (the parser hashes them). Two known findings (non-ASCII strings re-read as bytes literals; all-ASCII BytesAttr re-read as StringAttr) are limitations of the shared literal syntax and are recorded; one defect repaired (hex float elements of dense/array attributes)."),
 })
 
 CLAIMED.update({
-    "C04": dict(cat="bounded_symbolic", design="DESIGN.md §4 C04",
+    "C04": dict(cat="other", design="DESIGN.md §4 C04",
                 text="Unit-symbolic (M1) on names: 11 IR skeletons (repeated/unnamed/hinted results, multi-result ops, block arguments, several blocks with forward branches, hinted blocks next to automatically named ones, nested and sibling regions, an IsolatedFromAbove op with results followed by definitions, a terminator with a forward successor that owns a region, graph-style forward value references) are built through the IR API with SYMBOLIC value and block name hints (1-2 cells over all of Unicode; up to 4, thorough 5, cells over the identifier alphabet); hints the API refuses end the path. The real Printer prints the generic form, the real lexer and Parser read the symbolic text back in a fresh context, and z3 decides for all hints: it parses, the structure (ops, wiring, types, attributes, successors, layout) is the same, re-printing the parsed module gives the same text, and printing the original twice gives the same text.",
                 note="Skeleton shapes are enumerated, names are symbolic; attribute payloads are C06; custom formats are C05 (not applicable). Printer/Parser name tables are list-backed dictionaries (stub) so symbolic names need no hashing. Three defects repaired (Unicode hints, repeated _<n> suffixes, bb<n> block hints). Branches to a region's entry block are outside the catalogue (MLIR forbids them; the entry label is not printed)."),
 })
 
 CLAIMED.update({
-    "C07": dict(cat="bounded_symbolic", design="DESIGN.md §4 C07",
+    "C07": dict(cat="other", design="DESIGN.md §4 C07",
                 text="Unit-symbolic (M1) on input text: (lex) the real MLIRLexer on FULLY symbolic text of 1-2 (thorough 3) cells over all Unicode scalar values must end with tokens or ParseError; (parse) ten generic-format chunks covering the builtin attribute/type/region syntax are edited at EVERY position - one cell replaced by a symbolic cell, one inserted, or the text cut and a symbolic cell appended (about 2400 edit sites) - and parsed + verified by the real Parser: z3 decides for all values of the cell that every path ends with IR, ParseError or a verification diagnostic, any other exception being a violation; (cost) for 17 token-start prefixes x 12 character classes x n in {8,16} cells symbolic inside the class, the step count of the regex matcher that executes the lexer's own patterns (backtracking with sre's priority order over CPython's pattern parse tree) stays under a linear bound - super-linear backtracking is replayed by timing CPython's regex engine on growing instances.",
                 note="'Promptly' is decided on matcher steps, not wall-clock time. One symbolic cell per input (two adjacent ones in thorough); edits inside identifiers that the parser hashes (operation names, dictionary keys, type keywords) are partly inconclusive and reported as such. Eight defects repaired (exponential string regex, non-ASCII numerics, and six internal-error escapes of the parser)."),
 })
@@ -197,3 +197,11 @@ def main():
 
 if __name__ == "__main__":
     main()
+
+# validate what was written
+try:
+    import jsonschema
+
+    jsonschema.validate(json.load(open(os.path.join(ROOT, "MANIFEST.json"))), json.load(open("/root/.vp/MANIFEST.schema.json")))
+except ImportError:
+    pass
